@@ -596,14 +596,37 @@ def _mul(ctx, eqn, a, b):
 @rule("and")
 def _and_rule(ctx, eqn, a, b):
     if out_kind(eqn) != "b":
-        raise Unsupported("bitwise and on integers")
+        return elementwise(_int_bitop(ctx, "and"))(ctx, eqn, a, b)
     return elementwise(_and)(ctx, eqn, a, b)
+
+
+def _int_bitop(ctx, name):
+    """Bitwise and / or on INTEGERS: an uninterpreted commutative function with the facts that hold for non-negative operands (or: >= both operands, or(x, 0) = x;
+    and: <= both operands, and(x, 0) = 0).  An abstraction: obligations that mention it are `abstraction_incomplete` (a counter-model is a candidate only)."""
+    f = ctx.uf(f"int_{name}", [z3.IntSort(), z3.IntSort()], z3.IntSort())
+    ctx.__dict__.setdefault("abstract_ufs", set()).add(f"int_{name}")
+
+    def op(x, y):
+        if is_const(x) and is_const(y):
+            return (int(x) | int(y)) if name == "or" else (int(x) & int(y))
+        x, y = zint(x), zint(y)
+        lo, hi = (x, y) if x.get_id() <= y.get_id() else (y, x)     # commutativity by argument ordering
+        r = f(lo, hi)
+        nn = z3.And(x >= 0, y >= 0)
+        if name == "or":
+            ctx.assume(z3.Implies(nn, z3.And(r >= x, r >= y, r <= x + y)))
+            ctx.assume(z3.And(z3.Implies(x == 0, r == y), z3.Implies(y == 0, r == x)))
+        else:
+            ctx.assume(z3.Implies(nn, z3.And(r <= x, r <= y, r >= 0)))
+            ctx.assume(z3.And(z3.Implies(x == 0, r == 0), z3.Implies(y == 0, r == 0)))
+        return r
+    return op
 
 
 @rule("or")
 def _or_rule(ctx, eqn, a, b):
     if out_kind(eqn) != "b":
-        raise Unsupported("bitwise or on integers")
+        return elementwise(_int_bitop(ctx, "or"))(ctx, eqn, a, b)
     return elementwise(_or)(ctx, eqn, a, b)
 
 
